@@ -340,6 +340,13 @@ func runC02(env *Env, s Scenario) {
 
 			continue
 		}
+		if sc.Server.Echo && strings.Contains(rec.Result, "<hello") {
+			// known finding (see C08): the echo of the client's own hello and of the beginning of
+			// its request was filed as the reply
+			env.Fail("own-echo-returned-as-reply", "", "RPC %d returned the transport's echo of the client's own bytes: %q", rec.ReqIndex, firstN(rec.Result, 300))
+
+			continue
+		}
 		if rec.Result != want {
 			env.Fail(clausePfx+"result-mismatch", "", "reply %d:\n got %q\nwant %q\nframe %q", rec.ReqIndex, firstN(rec.Result, 400), firstN(want, 400), firstN(srcBytes, 500))
 		}
